@@ -157,8 +157,11 @@ def reset_globals():
     for memo in caches:
         memo.clear()
     import glue.core.fixed_resolution_buffer as frb
-    frb.ARRAY_CACHE.clear()
-    frb.PIXEL_CACHE.clear()
+    # every module-level dictionary of the buffer module is a cache (ARRAY_CACHE / PIXEL_CACHE on the pinned tree; found by type,
+    # not by name, so that another layout of the caches does not stop the harness)
+    for name, val in list(vars(frb).items()):
+        if isinstance(val, dict) and not name.startswith('__'):
+            val.clear()
     import glue
     env = getattr(glue, 'env', None)
     if env is not None:
